@@ -1,5 +1,5 @@
 CONSTANTS
-  Alphabet = {"[a]: /u", "(t", "t)", "# h", "---", "***", "[a]", "> q"}
+  Alphabet = {"[a]: /u", "(t", "t)", "# h", "---", "***", "[a]", "> q", "    c"}
   MaxLines = 5
 SPECIFICATION Spec
 INVARIANT TypeOK
